@@ -196,11 +196,17 @@ func Iif[T any](predicate func() bool, source1, source2 Observable[T]) func() Ob
 // DefaultIfEmpty emits a default value if the source observable emits no items.
 // Play: https://go.dev/play/p/WDh807OLPWv
 func DefaultIfEmpty[T any](defaultValue T) func(Observable[T]) Observable[T] {
-	return DefaultIfEmptyWithContext(context.Background(), defaultValue)
+	return defaultIfEmpty(func(ctx context.Context) context.Context { return ctx }, defaultValue)
 }
 
 // DefaultIfEmptyWithContext emits a default value if the source observable emits no items.
 func DefaultIfEmptyWithContext[T any](defaultCtx context.Context, defaultValue T) func(Observable[T]) Observable[T] {
+	return defaultIfEmpty(func(context.Context) context.Context { return defaultCtx }, defaultValue)
+}
+
+// defaultIfEmpty emits defaultValue with the context returned by contextOf, which
+// receives the context of the completion notification.
+func defaultIfEmpty[T any](contextOf func(ctx context.Context) context.Context, defaultValue T) func(Observable[T]) Observable[T] {
 	return func(source Observable[T]) Observable[T] {
 		return NewUnsafeObservableWithContext(func(subscriberCtx context.Context, destination Observer[T]) Teardown {
 			empty := true
@@ -216,7 +222,7 @@ func DefaultIfEmptyWithContext[T any](defaultCtx context.Context, defaultValue T
 					destination.ErrorWithContext,
 					func(ctx context.Context) {
 						if empty {
-							destination.NextWithContext(defaultCtx, defaultValue)
+							destination.NextWithContext(contextOf(ctx), defaultValue)
 						}
 
 						destination.CompleteWithContext(ctx)
